@@ -302,57 +302,15 @@ def _why(out):
     return (out.message.strip().splitlines() or ["?"])[-1][:300]
 
 
-def run_cases(cases):
-    """Evaluate a list of cases.  -> list of result dicts:
-    status agree | mismatch | onesided | both_reject | panic | unsupported | generr, + detail"""
-    from vlib import runner
+def _unsupported_why(msg):
+    import re
 
-    res = [None] * len(cases)
-    ks = list(range(len(cases)))
-    out, lm = runner.run_source(program(cases, ks))
-    if lm is not None:
-        lm.dispose()
-    if out.kind in ("rejected", "crash", "invalid"):
-        per = compile_each(cases, ks)
-        good = []
-        for k in ks:
-            g, c = accept_kind(per[k]["g"]), accept_kind(per[k]["c"])
-            if g == "ok" and c == "ok":
-                good.append(k)
-            elif g != "ok" and c != "ok":
-                res[k] = {"status": "both_reject",
-                          "detail": f"@guppy: {_why(per[k]['g'])} | comptime: {_why(per[k]['c'])}"}
-            else:
-                who = "comptime" if g == "ok" else "guppy"
-                bad = per[k]["c"] if g == "ok" else per[k]["g"]
-                res[k] = {"status": "onesided", "who": who, "kind": accept_kind(bad),
-                          "detail": f"accepted by {'@guppy' if g == 'ok' else '@guppy.comptime'}, "
-                                    f"{accept_kind(bad)} by {'@guppy.comptime' if g == 'ok' else '@guppy'}: {_why(bad)}"}
-        ks = good
-        if not ks:
-            return res
-        out, lm = runner.run_source(program(cases, ks))
-        if lm is not None:
-            lm.dispose()
-        if out.kind in ("rejected", "crash", "invalid"):
-            for k in ks:
-                res[k] = {"status": "generr", "detail": f"functions compile one by one but the program is {out.kind}: "
-                                                        f"{out.title} {out.message[-600:]}"}
-            return res
-    if out.kind == "unsupported":
-        if len(ks) == 1:
-            res[ks[0]] = {"status": "unsupported", "detail": out.message[:300]}
-            return res
-        for k in ks:  # find the culprit(s): one program per case
-            res[k] = run_cases([cases[k]])[0]
-        return res
-    if out.kind == "panic":
-        if len(ks) == 1:
-            res[ks[0]] = _panic_case(cases[ks[0]])
-            return res
-        for k in ks:
-            res[k] = run_cases([cases[k]])[0]
-        return res
+    m = re.findall(r"unimplemented op: \w+|Caused by:.*?2: ([^\n]*)", msg, flags=re.S)
+    ops = re.findall(r"unimplemented op: \w+", msg)
+    return ops[0] if ops else (m[0] if m else msg[:120])
+
+
+def _compare_streams(cases, ks, out, res):
     vals = {}
     for tag, v in out.stream:
         vals.setdefault(tag, []).append(v)
@@ -373,6 +331,78 @@ def run_cases(cases):
                           "detail": f"inputs {cases[k]['inputs'][j]}: @guppy -> {g1!r}, @guppy.comptime -> {c1!r}"}
             else:
                 res[k] = {"status": "agree", "values": vals.get(f"c{k}.g.0")}
+
+
+def run_cases(cases):
+    """Evaluate a list of cases.  -> list of result dicts:
+    status agree | mismatch | onesided | both_reject | panic | unsupported | skipped | generr, + detail"""
+    import re
+
+    from vlib import runner
+
+    res = [None] * len(cases)
+    ks = list(range(len(cases)))
+    compiled_each = False
+    for _round in range(6):
+        if not ks:
+            return res
+        out, lm = runner.run_source(program(cases, ks))
+        if lm is not None:
+            lm.dispose()
+        if out.kind == "ok":
+            _compare_streams(cases, ks, out, res)
+            return res
+        if out.kind in ("rejected", "crash", "invalid"):
+            if compiled_each:
+                for k in ks:
+                    res[k] = {"status": "generr", "detail": f"functions compile one by one but the program is {out.kind}: "
+                                                            f"{out.title} {out.message[-600:]}"}
+                return res
+            compiled_each = True
+            per = compile_each(cases, ks)
+            good = []
+            for k in ks:
+                g, c = accept_kind(per[k]["g"]), accept_kind(per[k]["c"])
+                if g == "ok" and c == "ok":
+                    good.append(k)
+                elif g != "ok" and c != "ok":
+                    res[k] = {"status": "both_reject",
+                              "detail": f"@guppy: {_why(per[k]['g'])} | comptime: {_why(per[k]['c'])}"}
+                else:
+                    bad = per[k]["c"] if g == "ok" else per[k]["g"]
+                    res[k] = {"status": "onesided", "who": "comptime" if g == "ok" else "guppy", "kind": accept_kind(bad),
+                              "detail": f"accepted by {'@guppy' if g == 'ok' else '@guppy.comptime'}, "
+                                        f"{accept_kind(bad)} by {'@guppy.comptime' if g == 'ok' else '@guppy'}: {_why(bad)}"}
+            ks = good
+            continue
+        if out.kind == "unsupported":
+            m = re.search(r"for function c(\d+)_[gc]\b", out.message)
+            k = int(m.group(1)) if m else None
+            if k is None or k not in ks:
+                if len(ks) == 1:
+                    k = ks[0]
+                else:  # cannot name the culprit: halve
+                    half = len(ks) // 2
+                    for part in (ks[:half], ks[half:]):
+                        sub = run_cases([cases[i] for i in part])
+                        for i, r in zip(part, sub):
+                            res[i] = r
+                    return res
+            res[k] = {"status": "unsupported", "detail": _unsupported_why(out.message)}
+            ks = [i for i in ks if i != k]
+            continue
+        if out.kind == "panic":
+            seen = {tag for tag, _ in out.stream}
+            k = next((i for i in ks if any(f"c{i}.{m}.{j}" not in seen for j in range(len(cases[i]["inputs"])) for m in "gc")),
+                     ks[0])
+            res[k] = _panic_case(cases[k])
+            ks = [i for i in ks if i != k]
+            continue
+        for k in ks:
+            res[k] = {"status": "generr", "detail": f"unexpected outcome {out.kind}: {out.message[:300]}"}
+        return res
+    for k in ks:
+        res[k] = {"status": "skipped", "detail": "batch needed too many re-runs"}
     return res
 
 
@@ -408,16 +438,28 @@ def localise(case, r):
         if key in seen:
             continue
         seen.add(key)
-        cand.append({"expr": s, "inputs": case["inputs"]})
+        cand.append({"expr": s, "inputs": [{p: i[p] for p in params_of(s)} for i in case["inputs"]]})
     if not cand:
         return feature(case["expr"]), case, r
-    rs = run_cases(cand)
+    if r["status"] == "onesided":  # acceptance is decided by compiling alone
+        per = compile_each(cand, list(range(len(cand))))
+        rs = []
+        for k in range(len(cand)):
+            g, c = accept_kind(per[k]["g"]), accept_kind(per[k]["c"])
+            if (g == "ok") != (c == "ok"):
+                bad = per[k]["c"] if g == "ok" else per[k]["g"]
+                rs.append({"status": "onesided", "who": "comptime" if g == "ok" else "guppy", "kind": accept_kind(bad),
+                           "detail": f"accepted by {'@guppy' if g == 'ok' else '@guppy.comptime'}, "
+                                     f"{accept_kind(bad)} by {'@guppy.comptime' if g == 'ok' else '@guppy'}: {_why(bad)}"})
+            else:
+                rs.append({"status": "other"})
+    else:
+        rs = run_cases(cand)
     for c, rr in zip(cand, rs):
         if rr["status"] == r["status"] and rr.get("who") == r.get("who"):
             c1 = dict(c)
             if rr["status"] == "mismatch":
                 c1["inputs"] = [c["inputs"][rr["input"]]]
-            c1["inputs"] = [{p: i[p] for p in params_of(c1["expr"])} for i in c1["inputs"]]
             return feature(c["expr"]), c1, rr
     return feature(case["expr"]), case, r
 
@@ -460,22 +502,38 @@ def num_join(lt, rt):
     return lt if RANK[lt] >= RANK[rt] else rt
 
 
-def strategies(excl):
+_ARITH = ["+", "-", "*", "/", "//", "%", "**", "<<", ">>", "&", "|", "^"]
+_CMPS = ["==", "!=", "<", "<=", ">", ">="]
+# reflected forms: (left constant class, traced right operand class) -> operators
+REFL_OPS = {"ii": _ARITH + _CMPS, "in": _ARITH + _CMPS, "fi": ["+", "-", "*", "/", "**"] + _CMPS,
+            "if": ["+", "-", "*", "/", "**"] + _CMPS, "ff": ["+", "-", "*", "/", "**"] + _CMPS,
+            "bb": ["&", "|", "^", "==", "!="]}
+REFL_COMBOS = [(cls, op) for cls in ("ii", "in", "fi", "if", "ff", "bb") for op in REFL_OPS[cls]]
+
+
+def strategies(excl, shard=0, nshards=1):
     from hypothesis import strategies as st
 
     INT_C = ["0", "1", "2", "3", "5", "7", "-1", "-2", "-7", "10", "255", "2147483648", "-4611686018427387904"]
     FLT_C = ["0.5", "1.5", "2.0", "-2.5", "0.0", "3.25", "-1.0", "100.0"]
 
     class G:
-        def __init__(self, draw):
-            self.draw = draw
+        """All choices come from one `random.Random` drawn from Hypothesis (st.randoms, seeded by the
+        harness): uniform choices at every depth (Hypothesis' own integer draws are biased towards
+        small values and repeat examples, which starves the later operators of a list)."""
+
+        def __init__(self, rnd):
+            self.rnd = rnd
             self.excluded = []
 
         def pick(self, xs):
-            return self.draw(st.sampled_from(xs))
+            return self.rnd.choice(xs)
+
+        def ri(self, lo, hi):
+            return self.rnd.randint(lo, hi)
 
         def coin(self, num=1, den=2):
-            return self.draw(st.integers(0, den - 1)) < num
+            return self.rnd.randrange(den) < num
 
         # ---- leaves
         def int_leaf(self):
@@ -497,7 +555,7 @@ def strategies(excl):
                 if allow_const and self.coin(1, 3):
                     return self.int_const()
                 return self.int_leaf()
-            w = self.draw(st.integers(0, 99))
+            w = self.ri(0, 99)
             if w < 6:
                 return self.int_leaf()
             if w < 40:  # arithmetic / bitwise with any operand order
@@ -529,11 +587,11 @@ def strategies(excl):
             if w < 80:
                 return CALL("abs", [self.int_(d - 1)], "int")
             if w < 85:
-                which = self.draw(st.integers(0, 2))
+                which = self.ri(0, 2)
                 arg = self.bounded_float(min(d - 1, 1)) if which == 0 else self.nat_(d - 1) if which == 1 else self.bool_(d - 1)
                 return CALL("int", [arg], "int")
             if w < 88:
-                arg = P("xs") if self.coin() else {"k": "arr", "es": [self.int_(0, True) for _ in range(self.draw(st.integers(1, 3)))]}
+                arg = P("xs") if self.coin() else {"k": "arr", "es": [self.int_(0, True) for _ in range(self.ri(1, 3))]}
                 if arg["k"] == "arr":
                     if not traced(arg):
                         arg["es"][0] = self.int_leaf()
@@ -541,7 +599,7 @@ def strategies(excl):
                 return CALL("len", [arg], "int")
             if w < 94:
                 return self.access("int", d)
-            which = self.draw(st.integers(0, 2))
+            which = self.ri(0, 2)
             if which == 0:
                 return CALL("g_add", [self.int_(d - 1, True), self.int_(d - 1, True)], "int")
             if which == 1:
@@ -553,7 +611,7 @@ def strategies(excl):
 
         def int_operand(self, d, op):
             """int-typed operand, sometimes a constant, sometimes nat-typed (joins to int)"""
-            w = self.draw(st.integers(0, 9))
+            w = self.ri(0, 9)
             if w < 3:
                 return self.int_const()
             if w < 4 and op in ("+", "-", "*", "//", "%", "&", "|", "^"):
@@ -582,7 +640,7 @@ def strategies(excl):
         def nat_(self, d):
             if d <= 0:
                 return P(self.pick(["n", "m", "n"]))
-            w = self.draw(st.integers(0, 99))
+            w = self.ri(0, 99)
             if w < 15:
                 return P(self.pick(["n", "m"]))
             if w < 55:
@@ -608,7 +666,7 @@ def strategies(excl):
             return C(self.pick(FLT_C), "float")
 
         def nonzero_div(self):
-            w = self.draw(st.integers(0, 5))
+            w = self.ri(0, 5)
             return [C("2", "int"), C("-4.0", "float"), C("0.5", "float"), P("z"), P("p"), P("m")][w]
 
         def bounded_float(self, d):
@@ -633,7 +691,7 @@ def strategies(excl):
         def float_(self, d):
             if d <= 0:
                 return P(self.pick(["x", "y", "z"]))
-            w = self.draw(st.integers(0, 99))
+            w = self.ri(0, 99)
             if w < 6:
                 return P(self.pick(["x", "y", "z"]))
             if w < 40:
@@ -649,7 +707,7 @@ def strategies(excl):
                 l = self.num_operand(d - 1)
                 return self.fix_bin("/", l, self.nonzero_div(), lambda: P("z"))
             if w < 64:
-                which = self.draw(st.integers(0, 2))
+                which = self.ri(0, 2)
                 if which == 0:  # traced float base, small integral exponent
                     return self.fix_bin("**", P(self.pick(["x", "y"])), self.small_amount(), lambda: P("s"))
                 if which == 1:  # constant float base, traced exponent (reflected)
@@ -658,14 +716,14 @@ def strategies(excl):
                 return self.fix_bin("**", C(self.pick(["2", "3"]), "int"), P(self.pick(["x", "y"])), lambda: P("x"))
             if w < 71:
                 return {"k": "un", "op": self.pick(["-", "+"]), "e": self.float_(d - 1), "t": "float"}
-            if w < 75:
-                return CALL("abs", [self.float_(d - 1)], "float")
+            if w < 75:  # (no abs() of a float: selene 0.4.3 has no `fabs`, toolchain gap)
+                return {"k": "un", "op": "-", "e": self.float_(d - 1), "t": "float"}
             if w < 83:
                 arg = self.int_(d - 1) if self.coin(2, 3) else self.nat_(d - 1)
                 return CALL("float", [arg], "float")
             if w < 90:
                 return self.access("float", d)
-            which = self.draw(st.integers(0, 2))
+            which = self.ri(0, 2)
             if which == 0:
                 return CALL("g_scale", [self.num_operand(d - 1), self.int_(d - 1, True)], "float")
             if which == 1:
@@ -673,7 +731,7 @@ def strategies(excl):
             return {"k": "idx", "e": CALL("g_swap", [self.tup_if(d - 1)], "tuple[float, int]"), "i": 0, "t": "float"}
 
         def num_operand(self, d):
-            w = self.draw(st.integers(0, 9))
+            w = self.ri(0, 9)
             if w < 2:
                 return self.flt_const()
             if w < 3:
@@ -688,12 +746,12 @@ def strategies(excl):
         def bool_(self, d):
             if d <= 0:
                 return P(self.pick(["c", "d"]))
-            w = self.draw(st.integers(0, 99))
+            w = self.ri(0, 99)
             if w < 8:
                 return P(self.pick(["c", "d"]))
             if w < 65:
                 op = self.pick(["==", "!=", "<", "<=", ">", ">="])
-                cls = self.draw(st.integers(0, 2))
+                cls = self.ri(0, 2)
                 if cls == 0:
                     l, r = self.int_operand(d - 1, "+"), self.int_operand(d - 1, "+")
                     mk = lambda: self.int_(d - 1)  # noqa: E731
@@ -728,7 +786,7 @@ def strategies(excl):
             return {"k": "arr", "es": es, "t": "array[int, 3]"}
 
         def struct_(self, d):
-            w = self.draw(st.integers(0, 2))
+            w = self.ri(0, 2)
             if w == 0:
                 return P("st")
             args = [self.int_(d, True), self.float_(d) if self.coin(3, 4) else self.flt_const()]
@@ -738,12 +796,12 @@ def strategies(excl):
 
         def access(self, ty, d):
             """an int / float obtained from a tuple, array or struct"""
-            w = self.draw(st.integers(0, 3))
+            w = self.ri(0, 3)
             if ty == "int":
                 if w == 0:
                     return {"k": "idx", "e": self.tup_if(d - 1), "i": 0, "t": "int"}
                 if w == 1:
-                    return {"k": "idx", "e": P("xs"), "i": self.draw(st.integers(0, 2)), "t": "int"}
+                    return {"k": "idx", "e": P("xs"), "i": self.ri(0, 2), "t": "int"}
                 if w == 2:
                     return {"k": "fld", "e": self.struct_(d - 1), "f": "u", "t": "int"}
                 es = [self.int_(d - 1, True), self.bool_(d - 1), self.int_(d - 1, True)]
@@ -752,11 +810,55 @@ def strategies(excl):
             if w == 0:
                 return {"k": "idx", "e": self.tup_if(d - 1), "i": 1, "t": "float"}
             if w == 1:
-                return {"k": "idx", "e": P("fs"), "i": self.draw(st.integers(0, 1)), "t": "float"}
+                return {"k": "idx", "e": P("fs"), "i": self.ri(0, 1), "t": "float"}
             return {"k": "fld", "e": self.struct_(d - 1), "f": "v", "t": "float"}
 
+        def refl(self, d, cls=None, op=None):
+            """Python constant as *left* operand of an operator applied to a traced value: every
+            operator x operand-type class, the traced operand in the role the operator needs.
+            (cls, op) drawn unless given (the enumerated part gives them)."""
+            cls = cls or self.pick(["ii", "ii", "ii", "fi", "if", "ff", "in", "in", "bb"])
+            if cls == "bb":
+                op = op or self.pick(REFL_OPS["bb"])
+                return self.fix_bin(op, C(self.pick(["True", "False"]), "bool"), self.bool_(d - 1), lambda: P("c"))
+            if cls in ("ii", "in"):
+                op = op or self.pick(REFL_OPS[cls])
+                nat = cls == "in"
+                if op in ("/", "//", "%"):
+                    r = P("m") if nat else P("p")
+                elif op in ("<<", ">>", "**"):
+                    r = P("m") if nat else P("s")
+                else:
+                    r = self.nat_(d - 1) if nat else self.int_(d - 1)
+                if op == "**":
+                    l = C(self.pick(["2", "3", "-2", "1"]), "int")
+                elif op in ("<<", ">>"):
+                    l = C(self.pick(["1", "2", "5", "255", "-1", "-7", "2147483648"]), "int")
+                else:
+                    l = self.int_const()
+                if op == ">>" and r["t"] == "int" and "reflected.rshift" in excl:
+                    self.excluded.append("reflected.rshift")
+                    op = "<<"
+                return self.fix_bin(op, l, r, lambda: P("s"))
+            # a float on at least one side: no bitwise ops / shifts, no // % (ffloor)
+            op = op or self.pick(REFL_OPS[cls])
+            l = self.flt_const() if cls[0] == "f" else self.int_const()
+            if op == "/":
+                r = P("z") if cls[1] == "f" else P("p")
+            elif op == "**":
+                l = C(self.pick(["2.0", "0.5", "1.5"]), "float") if cls[0] == "f" else C(self.pick(["2", "3"]), "int")
+                r = P(self.pick(["x", "y"])) if cls[1] == "f" else P("s")
+            else:
+                r = self.float_(d - 1) if cls[1] == "f" else self.int_(d - 1)
+            return self.fix_bin(op, l, r, lambda: P("x"))
+
         def top(self, d):
-            w = self.draw(st.integers(0, 99))
+            if self.coin(3, 10):
+                e = self.refl(d)
+                if self.coin(1, 3) and e["t"] in RANK:  # put it into a context
+                    e = self.fix_bin(self.pick(["+", "-", "*"]), e, P({"int": "a", "nat": "n", "float": "x"}[e["t"]]), None)
+                return e
+            w = self.ri(0, 99)
             if w < 34:
                 return self.int_(d)
             if w < 52:
@@ -774,49 +876,90 @@ def strategies(excl):
                 return CALL("g_swap", [self.tup_if(d - 1)], "tuple[float, int]")
             if w < 93:
                 if self.coin():
-                    return self.arr_int3(d - 1) if self.coin(2, 3) else \
-                        {"k": "arr", "es": [self.int_(d - 1), C("4", "int"), self.int_(d - 1)], "t": "array[int, 3]"}
+                    # (never the borrowed parameter `xs` itself: returning it is an ownership error in @guppy)
+                    return {"k": "arr", "es": [self.int_(d - 1), C("4", "int") if self.coin() else self.int_(d - 1, True),
+                                               self.int_(d - 1)], "t": "array[int, 3]"}
                 es = [self.float_(d - 1), self.float_(d - 1)]
                 return {"k": "arr", "es": es, "t": "array[float, 2]"}
             s = self.struct_(d - 1)
             return s if s["k"] != "p" else {"k": "st", "es": [self.int_(d - 1), self.float_(d - 1)], "t": "S"}
 
     def lit_float(v):
-        r = repr(float(v))
-        return r
+        return repr(float(v))
 
-    ints = st.one_of(st.integers(-20, 20), st.integers(-20, 20), st.integers(-10**6, 10**6),
-                     st.sampled_from([0, 1, -1, 2**31, -2**31, 2**62, -2**62, 2**63 - 1, -(2**63 - 1)]))
-    floats = st.one_of(st.sampled_from([0.0, 1.0, -1.0, 0.5, 2.0, -0.0, 100.0, -99.5]),
-                       st.floats(-100, 100, allow_nan=False), st.integers(-50, 50).map(float))
-    nonzero = st.one_of(st.floats(0.5, 100), st.floats(-100, -0.5), st.sampled_from([1.0, -1.0, 0.5, -2.0, 4.0]))
-    INPUT = {
-        "int": ints.map(str),
-        "pos": st.integers(1, 50).map(str),
-        "small": st.integers(0, 6).map(str),
-        "nat": st.one_of(st.integers(0, 20), st.integers(0, 20), st.integers(0, 10**4)).map(str),
-        "small_pos": st.integers(1, 6).map(str),
-        "float": floats.map(lit_float),
-        "nonzero": nonzero.map(lit_float),
-        "bool": st.booleans().map(str),
-        "tup": st.tuples(ints, floats).map(lambda t: f"({t[0]}, {lit_float(t[1])})"),
-        "arr3": st.tuples(ints, ints, ints).map(lambda t: f"array({t[0]}, {t[1]}, {t[2]})"),
-        "farr2": st.tuples(floats, floats).map(lambda t: f"array({lit_float(t[0])}, {lit_float(t[1])})"),
-        "struct": st.tuples(ints, floats).map(lambda t: f"S({t[0]}, {lit_float(t[1])})"),
-    }
+    def gen_input(rnd, cls):
+        def i():
+            w = rnd.randrange(4)
+            if w < 2:
+                return rnd.randint(-20, 20)
+            if w == 2:
+                return rnd.randint(-10**6, 10**6)
+            return rnd.choice([0, 1, -1, 2**31, -2**31, 2**62, -2**62, 2**63 - 1, -(2**63 - 1)])
+
+        def f():
+            w = rnd.randrange(3)
+            if w == 0:
+                return rnd.choice([0.0, 1.0, -1.0, 0.5, 2.0, -0.0, 100.0, -99.5])
+            if w == 1:
+                return float(rnd.randint(-50, 50))
+            return rnd.uniform(-100, 100)
+
+        if cls == "int":
+            return str(i())
+        if cls == "pos":
+            return str(rnd.randint(1, 50))
+        if cls == "small":
+            return str(rnd.randint(0, 6))
+        if cls == "nat":
+            return str(rnd.randint(0, 20) if rnd.randrange(3) else rnd.randint(0, 10**4))
+        if cls == "small_pos":
+            return str(rnd.randint(1, 6))
+        if cls == "float":
+            return lit_float(f())
+        if cls == "nonzero":
+            v = rnd.choice([1.0, -1.0, 0.5, -2.0, 4.0]) if rnd.randrange(3) == 0 else rnd.uniform(0.5, 100) * rnd.choice([1, -1])
+            return lit_float(v)
+        if cls == "bool":
+            return str(rnd.random() < 0.5)
+        if cls == "tup":
+            return f"({i()}, {lit_float(f())})"
+        if cls == "arr3":
+            return f"array({i()}, {i()}, {i()})"
+        if cls == "farr2":
+            return f"array({lit_float(f())}, {lit_float(f())})"
+        if cls == "struct":
+            return f"S({i()}, {lit_float(f())})"
+        raise ValueError(cls)
 
     @st.composite
     def case(draw):
-        g = G(draw)
-        d = draw(st.sampled_from([1, 2, 2, 3]))
+        rnd = draw(st.randoms(use_true_random=True))
+        g = G(rnd)
+        d = g.pick([1, 2, 2, 3])
         e = g.top(d)
         if not params_of(e):  # a body without traced values says nothing
             e = {"k": "bin", "op": "+", "l": e, "r": P("a"), "t": "int"} if e["t"] == "int" else g.int_(1)
-        ni = draw(st.integers(2, 3))
-        inputs = [{p: draw(INPUT[PARAMS[p][1]]) for p in params_of(e)} for _ in range(ni)]
+        ni = g.ri(2, 3)
+        inputs = [{p: gen_input(rnd, PARAMS[p][1]) for p in params_of(e)} for _ in range(ni)]
         return {"expr": e, "inputs": inputs, "excluded": g.excluded}
 
-    return case()
+    @st.composite
+    def enumerated(draw):
+        """this shard's slice of ALL reflected forms (constant OP traced leaf), two constants each"""
+        rnd = draw(st.randoms(use_true_random=True))
+        out = []
+        for idx, (cls, op) in enumerate(REFL_COMBOS):
+            if idx % nshards != shard % nshards:
+                continue
+            for _rep in range(2):
+                g = G(rnd)
+                e = g.refl(1, cls, op)
+                ni = g.ri(2, 3)
+                out.append({"expr": e, "inputs": [{p: gen_input(rnd, PARAMS[p][1]) for p in params_of(e)} for _ in range(ni)],
+                            "excluded": g.excluded})
+        return out
+
+    return case(), enumerated()
 
 
 def labels_of(case, r):
@@ -834,7 +977,7 @@ def worker(ctx):
 
     excl = active_exclusions()
     ctx.notes["active_exclusions"] = sorted(excl)
-    one = strategies(excl)
+    one, enum = strategies(excl, ctx.shard, ctx.nshards)
     B = ctx.params["batch"]
     found = {}  # preliminary bucket -> (case, r)
     tot = {"n": 0, "both_reject": 0}
@@ -864,11 +1007,27 @@ def worker(ctx):
             elif r["status"] == "panic":
                 ctx.label("both_panic_alike")
                 ctx.sample("both_panic_alike", {"body": render(case["expr"]), "inputs": case["inputs"], "why": r["detail"]})
+            elif r["status"] == "skipped":
+                ctx.label("skipped")
             elif r["status"] == "generr":
                 ctx.harness_error(r["detail"] + "\n" + describe(case))
 
-    harness.hyp_search(ctx, st.lists(one, min_size=B, max_size=B), body, max_examples=ctx.params["n"], chunk=4,
-                       time_frac=0.65)
+    # one case per Hypothesis example (a list of B cases in one example overruns Hypothesis' entropy
+    # buffer and the later cases degenerate to minimal draws); B examples are evaluated together
+    pending = []
+
+    def collect(case):
+        pending.append(case)
+        if len(pending) >= B:
+            batch = list(pending)
+            del pending[:]
+            body(batch)
+
+    # systematic part: every reflected operator x operand class (split over the shards), then random search
+    harness.hyp_search(ctx, enum, lambda cs: [collect(c) for c in cs], max_examples=1, chunk=1, time_frac=0.55, extra_seed=7)
+    harness.hyp_search(ctx, one, collect, max_examples=ctx.params["n"] * B, chunk=B * 2, time_frac=0.55)
+    if pending and not ctx.out_of_time(0.55):
+        body(list(pending))
     if tot["n"] >= 60 and tot["both_reject"] > 0.03 * tot["n"]:
         ctx.harness_error(f"{tot['both_reject']}/{tot['n']} generated bodies were rejected by both modes "
                           f"(generator leaves the common fragment)")
@@ -876,13 +1035,15 @@ def worker(ctx):
     done = set()
     for key, (case, r) in sorted(found.items(), key=lambda kv: size(kv[1][0]["expr"])):
         feats = set(features(case["expr"]))
-        if any(b_feat in feats for b_feat in done) and ctx.out_of_time(0.8):
-            continue
+        if any(st_ == r["status"] and f in feats for st_, f in done):
+            ctx.label("not_localised:contains_an_already_localised_feature")
+            continue  # most likely the same root cause inside a larger body
         if ctx.out_of_time(0.93):
             feat, small, rr = feature(case["expr"]), case, r
+            ctx.label("not_localised:out_of_time")
         else:
             feat, small, rr = localise(case, r)
-        done.add(feat)
+        done.add((r["status"], feat))
         b = bucket_of(rr, feat)
         small = {"expr": small["expr"], "inputs": small["inputs"]}
         ctx.violation(b, small, rr["detail"] + "\n" + describe(small))
@@ -904,8 +1065,8 @@ SPEC = harness.Spec(
                  "selene 0.4.3 executes the lowered copy of the package (compat bridge, DESIGN.md 1.2); runtime float // % not generated (no ffloor)"],
     shards={"quick": 16, "thorough": 16},
     budget_s={"quick": 90, "thorough": 900},
-    params={"quick": {"n": 4, "batch": 24}, "thorough": {"n": 60, "batch": 30}},
-    min_nontrivial=150,
+    params={"quick": {"n": 6, "batch": 24}, "thorough": {"n": 60, "batch": 30}},
+    min_nontrivial=60,
 )
 
 if __name__ == "__main__":
